@@ -42,6 +42,10 @@ func runOrder(hdr Header, c any, src string) CaseResult {
 		want = append(want, abs.Str(n.(string)))
 	}
 	s := &jsonschema.Schema{Type: "object", Properties: props, PropertyOrder: order,
+		// draft-07 dependencies of both forms in one schema (they share ONE "dependencies" object; every
+		// array-form name sorts after every schema-form name here): same bytes every time
+		DependencySchemas: map[string]*jsonschema.Schema{"card": {}, "a": {Type: "null"}},
+		DependencyStrings: map[string][]string{"email": {"x"}, "phone": {}, "zip": {"y", "x"}, "web": {"z"}},
 		// unknown keywords, some equal up to letter case: "the same Schema value always marshals to the same bytes"
 		// covers them as well (repeated marshaling below)
 		Extra: map[string]any{"x-Order": 1.0, "x-order": 2.0, "X-ORDER": 3.0, "zz": true, "x-list": []any{"b", "a"}}}
@@ -353,6 +357,15 @@ func runRawDoc(hdr Header, c any, src string) CaseResult {
 	}
 	var s jsonschema.Schema
 	if err := json.Unmarshal([]byte(doc), &s); err != nil {
+		if feat, _ := cm["feat"].(string); feat != "" {
+			// a refusal that is a KNOWN finding of the property named in the case (for the other properties the
+			// acceptance of this document is open)
+			if pf, _ := cm["featprop"].(string); pf == propID {
+				res.Failures = append(res.Failures, Failure{Kind: "unmarshal", Source: src, Abstract: c, Concrete: json.RawMessage(doc),
+					Expected: "Unmarshal accepts the document", Got: err.Error(), Features: []string{feat}, Instance: doc + "|" + numRun.ReplaceAllString(err.Error(), "#")})
+			}
+			return res
+		}
 		if opt, _ := cm["opt"].(bool); opt {
 			// acceptance is left open for this document; a refusal is one of the two specified outcomes
 			res.Sample = map[string]any{"document": json.RawMessage(doc), "unmarshal": err.Error()}
